@@ -81,13 +81,12 @@ def s1(ck, an):
     fv = an.fa("PartitionTimeRanges.verify_start_before_end")
     ok = False
     floops = [n for n in walk_function(fv.f.node) if isinstance(n, ast.For) and fv.sym.canon(n.iter) == "self.folds.items()"]
+    from sa.dataflow import item_atom
     for lp in floops:
-        # for name, (start, end) in self.folds.items(): the window's two ends, found by their position in the target
-        t = lp.target
-        if not (isinstance(t, ast.Tuple) and len(t.elts) == 2 and isinstance(t.elts[1], ast.Tuple) and len(t.elts[1].elts) == 2 and all(isinstance(x, ast.Name) for x in t.elts[1].elts)):
-            continue
-        at = fv.node_of(lp.body[0]).id
-        start_v, end_v = (fv.sym.ev(ast.Name(id=x.id, ctx=ast.Load()), at) for x in t.elts[1].elts)
+        # the window of a fold is the VALUE of the item (position 1), its ends that value's positions 0 and 1 - however the loop
+        # target / a later unpacking names them
+        it_k = fv.sym.canon(lp.iter)
+        start_v, end_v = Poly.atom(item_atom(it_k, [1, 0])), Poly.atom(item_atom(it_k, [1, 1]))
         for r in raises_in(fv):
             sg = [p for p in fv.guard_predicates(r) if p[0] == "rel"]      # nested under `if end < start:` or after `if not end < start: continue`
             if len(sg) == 1 and sg[0][1] == "<" and sg[0][4] == end_v - start_v:
